@@ -660,9 +660,9 @@ func (s *session) exec(args []string) string {
 			return "err"
 		}
 		return enc(v)
-	case "miter": // MutableTree.Iterator
+	case "miter", "iter": // MutableTree.Iterator (the embedded ImmutableTree must not be used directly)
 		return drain(t.Iterator(dec(args[1]), dec(args[2]), args[3] == "asc"))
-	case "miterate": // MutableTree.Iterate
+	case "miterate", "iterate": // MutableTree.Iterate
 		c := &pairCollector{stop: stopArg(args)}
 		st, err := t.Iterate(c.fn)
 		if err != nil {
@@ -784,6 +784,10 @@ func main() {
 	}
 	defer os.RemoveAll(workdir)
 	switch os.Args[1] {
+	case "facts":
+		for _, l := range iavl.VerifFacts() {
+			fmt.Println(l)
+		}
 	case "exec":
 		runExec(os.Args[2])
 	case "kv":
